@@ -70,6 +70,7 @@ def one_case(rng, k):
             sources.append(x)
             values.append(a)
             tk = rng.choice(["path", "path", "group", "existing-equal", "existing-coarser", "existing-finer", "existing-coprime", "sharded",
+                             "existing-other-shape",
                              "region", "region", "region-ragged", "region-misaligned", "region-wrongshape"])
             if narrow:
                 tk = "region-narrow"
@@ -80,6 +81,12 @@ def one_case(rng, k):
             if tk in ("path", "group"):
                 tgt = path
                 full = None
+            elif tk == "existing-other-shape":
+                tshape = (r + rng.choice([1, 3, sch[0]]), c) if rng.random() < 0.5 else (r, max(1, c - 1))
+                tgt = zarr.create_array(path, shape=tshape, chunks=x.chunksize, dtype=a.dtype, fill_value=0)
+                tgt[...] = SENT
+                full = np.full(tshape, SENT, dtype=a.dtype)
+                shouldreject = True
             elif tk.startswith("existing") or tk == "sharded":
                 xch = x.chunksize
                 tch = {"existing-equal": xch, "existing-coarser": tuple(min(n, ch * 2) for n, ch in zip((r, c), xch)),
